@@ -44,7 +44,7 @@ def tasks(tier):
         if hd and sl is None:
             continue
         cfg = dict(M=3, deadline=D, alphabet=["ok", "x:T", "r:R"], durs=durs, dur_free=True,
-                   strat_menu=menu, strat_free=True, overshoot=[0, 1], over_free=True,
+                   strat_menu=menu, strat_free=True, overshoot=[0, 1, 3], over_free=True,
                    sleeper=sl, handler=hd, handler_menu=["SLEEP"], wall_jumps=True,
                    max_unknown=None)
         for e in Q4:
